@@ -15,7 +15,7 @@ Model: `ScenicModel/Model/Specifiers.lean`.  Theorems (all for arbitrary classes
 * `evaluate_ok`, `evaluate_total` (`Props/C06Eval.lean`) -- the evaluation loop itself: every dependency read
   is present and final, the source's assertion cannot fail, each property ends with the value of its
   modifier, else of its specifier;
-* `dup_name_reported`, `final_reported_partial` (+ `final_by_modifier_unreported_witness`), `tie_reported`, `missing_dep_reported`, `cycle_reported`,
+* `dup_name_reported`, `final_reported` (any specifier, modifying or not; + `final_reported_normal`, `regression_final_by_modifier`), `tie_reported`, `missing_dep_reported`, `cycle_reported`,
   `error_kinds_sound`, `cycle_error_sound`, `resolve_never_fuel` -- the errors;
 * `resolve_perm_invariant`, `resolve2D_perm_invariant`, `builtin_single_modifier`,
   `builtin_perm_invariant` -- the outcome does not depend on the order;
